@@ -16,23 +16,24 @@ var skipBiasKinds = func() []string {
 	for i := 0; i < 6; i++ {
 		k = append(k, "SkipElementsContent", "AllowElementsContent")
 	}
-	k = append(k, "AllowElementsMatching", "AllowElementsMatching", "AllowElementsMatching", "AllowNoAttrs", "AddSpaceWhenStrippingTag")
+	k = append(k, "AllowElementsMatching", "AllowElementsMatching", "AllowElementsMatching", "AllowNoAttrs", "AddSpaceWhenStrippingTag", "AllowComments", "AllowComments", "AllowComments")
 	return k
 }()
 
 func genTreeCase(t *rapid.T) *Case {
 	spec := genSpec(t, &SpecOpts{Kinds: skipBiasKinds})
 	m := BuildModel(spec)
-	in := genTree(t, m, &treeOpts{extraEls: []string{"object", "title", "iframe", "noscript", "frame", "my-x", "x-a-y", "a", "b", "img", "br"}, depth: 5})
+	in := genTree(t, m, &treeOpts{extraEls: []string{"object", "title", "iframe", "noscript", "frame", "my-x", "x-a-y", "a", "b", "img", "br"}, depth: 5, comments: true})
 	return &Case{Spec: spec, Input: BStr(in), Kind: "tree"}
 }
 
 type regionInfo struct {
-	hidden, visible []string       // markers
-	visTags         map[string]int // tag name -> number of tags (start+end+selfclosing) outside hidden regions
-	maxHiddenDepth  int
-	allowedInHidden bool
-	nSkipRegions    int
+	hidden, visible   []string       // markers in text
+	hiddenC, visibleC []string       // markers in comments
+	visTags           map[string]int // tag name -> number of tags (start+end+selfclosing) outside hidden regions
+	maxHiddenDepth    int
+	allowedInHidden   bool
+	nSkipRegions      int
 }
 
 // regions derives, from the reference tokenisation of a well-nested input, which markers sit
@@ -88,6 +89,14 @@ func regions(m *Model, toks []tok) regionInfo {
 					ri.visible = append(ri.visible, mk)
 				}
 			}
+		case html.CommentToken:
+			for _, mk := range markersIn(t.Name) {
+				if hiddenDepth > 0 {
+					ri.hiddenC = append(ri.hiddenC, mk)
+				} else {
+					ri.visibleC = append(ri.visibleC, mk)
+				}
+			}
 		}
 	}
 	return ri
@@ -111,6 +120,23 @@ func checkC08(c *Case, r *Rec) error {
 		if n := strings.Count(out, mk); n != 1 {
 			return violation(out, "C08: text %s sits outside every skipped element but appears %d times in the output", mk, n)
 		}
+	}
+	for _, mk := range ri.hiddenC {
+		if strings.Contains(out, mk) {
+			return violation(out, "C08: comment %s sits inside a disallowed skip-content element of the input but appears in the output", mk)
+		}
+	}
+	for _, mk := range ri.visibleC {
+		n := strings.Count(out, mk)
+		if m.comments && n != 1 {
+			return violation(out, "C08: comment %s sits outside every skipped element and comments are allowed, but it appears %d times in the output", mk, n)
+		}
+		if !m.comments && n != 0 {
+			return violation(out, "C08: comment %s appears in the output although comments are not allowed", mk)
+		}
+	}
+	if len(ri.hiddenC) > 0 && m.comments {
+		r.Class("comment_inside_skip_region_with_comments_allowed")
 	}
 	outTags := map[string]int{}
 	for _, t := range outToks {
